@@ -289,6 +289,8 @@ type kintv struct {
 	Enter  int64
 	Exit   int64
 	Status string
+	Ctx    string // binding names of the task's contexts when the handler returned
+	used   bool
 }
 
 // applyOps issues mutations on the vcluster, recording phases.
@@ -353,6 +355,12 @@ func applyOps(vc *vlib.VCluster, ops []kop, phase string, rec *krecord, sys *vli
 // runKCase executes the case and returns the record. extra is called at steady
 // state (after Post) inside the bubble for check-specific actions.
 func runKCase(c *vlib.Case, kc *kcase, restart bool, recipe func(sys *vlib.Sys, rec *krecord)) *krecord {
+	return runKCaseR(c, kc, restart, nil, nil, recipe)
+}
+
+// runKCaseR: install is called right after the operator is assembled (before Start) so that
+// schedule recipes can register rendezvous points; steady is called at steady state.
+func runKCaseR(c *vlib.Case, kc *kcase, restart bool, install, drive, recipe func(sys *vlib.Sys, rec *krecord)) *krecord {
 	rec := &krecord{KC: kc, Armed: map[string]bool{}, PhaseOf: map[int]string{}}
 	hs := vlib.NewHookSet(c.Dir, "hooks")
 	for _, kh := range kc.Hooks {
@@ -407,9 +415,19 @@ func runKCase(c *vlib.Case, kc *kcase, restart bool, recipe func(sys *vlib.Sys, 
 			if iv := openIv[q]; iv != nil {
 				iv.Exit = ev.Seq
 				iv.Status = fmt.Sprint(ev.Args[3])
+				if tk, ok := ev.Args[1].(task.Task); ok && tk != nil && tk.GetType() == task_metadata.HookRun {
+					var names []string
+					for _, bc := range task_metadata.HookMetadataAccessor(tk).BindingContext {
+						names = append(names, bc.Binding)
+					}
+					iv.Ctx = strings.Join(names, ",")
+				}
 			}
 			imu.Unlock()
 		})
+		if install != nil {
+			install(sys, rec)
+		}
 		// phase gates
 		betweenGate := vlib.NewGate()
 		defer betweenGate.Release()
@@ -426,6 +444,9 @@ func runKCase(c *vlib.Case, kc *kcase, restart bool, recipe func(sys *vlib.Sys, 
 			})
 		}
 		sys.Start()
+		if drive != nil {
+			drive(sys, rec)
+		}
 		if len(kc.Between) > 0 {
 			synctest.Wait()
 			if betweenGate.Hit() {
@@ -519,30 +540,24 @@ func runKCase(c *vlib.Case, kc *kcase, restart bool, recipe func(sys *vlib.Sys, 
 			sys2.Stop()
 		}
 	})
-	// match executions to handler intervals
+	// match executions to handler intervals: an execution belongs to the earliest unused interval of its
+	// hook whose task carried the same sequence of binding names (bindings determine the queue, and
+	// intervals of one queue are serial, so equal sequences are matched in order)
 	execs := hs.Executions()
-	perQH := map[string][]*kintv{}
-	for _, iv := range intervals {
-		if iv.Hook != "" && iv.Ran {
-			k := iv.Queue + "|" + iv.Hook
-			perQH[k] = append(perQH[k], iv)
-		}
-	}
-	used := map[string]int{}
 	for i, ex := range execs {
-		ke := &kexec{Execution: ex, Idx: i, Queue: "main"}
-		if len(ex.Contexts) > 0 {
-			b := kc.bind(ex.Hook, fmt.Sprint(ex.Contexts[0]["binding"]))
-			if b != nil && fmt.Sprint(ex.Contexts[0]["type"]) != "Synchronization" {
-				ke.Queue = b.EffQueue()
-			}
-			// a Group context of a Synchronization also runs in main: decided by the interval list below
+		ke := &kexec{Execution: ex, Idx: i, Queue: "?"}
+		var names []string
+		for _, cx := range ex.Contexts {
+			names = append(names, fmt.Sprint(cx["binding"]))
 		}
-		k := ke.Queue + "|" + ex.Hook
-		if used[k] < len(perQH[k]) {
-			iv := perQH[k][used[k]]
-			used[k]++
-			ke.EnterSeq, ke.ExitSeq, ke.Status = iv.Enter, iv.Exit, iv.Status
+		want := strings.Join(names, ",")
+		for _, iv := range intervals {
+			if iv.used || !iv.Ran || iv.Hook != ex.Hook || iv.Ctx != want {
+				continue
+			}
+			iv.used = true
+			ke.Queue, ke.EnterSeq, ke.ExitSeq, ke.Status = iv.Queue, iv.Enter, iv.Exit, iv.Status
+			break
 		}
 		rec.Execs = append(rec.Execs, ke)
 	}
